@@ -214,6 +214,36 @@ def r8_7(ctx):
         ctx.note("Panel no longer mutates its title text; R8.7 is then vacuous")
 
 
+def r8_17(ctx):
+    ctx.rule("R8.17", "the title is measured as it will be drawn: the top border is sized from the title's cell length, and a tab counts 0 cells until Text.wrap expands it (up to 8) when the title is rendered, a new line would break the border in two - so on every path of Panel._title the returned Text has had its tabs expanded (expand_tabs) and its new lines replaced before it is returned and measured; otherwise Panel('x', title='a\\tb') draws a top line wider than the panel and than its reported measurement")
+    f = ctx.repo.cls("panel:Panel").method("_title")
+    if f is None:
+        raise AnchorVanished("Panel._title not found")
+    m = f.module
+    g = cfgmod.build(f.node)
+    n = 0
+    for nd in g.stmt_nodes():
+        if nd.kind != "stmt" or not isinstance(nd.stmt, ast.Return) or nd.stmt.value is None or (isinstance(nd.stmt.value, ast.Constant) and nd.stmt.value.value is None):
+            continue
+        if not isinstance(nd.stmt.value, ast.Name):
+            raise AnalysisError(f"Panel._title returns `{norm(nd.stmt.value)}`, not a local Text; the normalisation clause is written differently and not decided")
+        v = nd.stmt.value.id
+        n += 1
+        tabs = {x.id for x in g.stmt_nodes() if x.kind == "stmt" and x.stmt is not None and any(isinstance(c, ast.Call) and norm(c.func) == f"{v}.expand_tabs" for c in ast.walk(x.stmt))}
+        nls = {x.id for x in g.stmt_nodes() if x.kind == "stmt" and x.stmt is not None and any(
+            isinstance(c, ast.Call) and isinstance(c.func, ast.Attribute) and c.func.attr in ("replace", "translate", "split", "splitlines", "join") and any(isinstance(k, ast.Constant) and isinstance(k.value, str) and "\n" in k.value for k in ast.walk(c)) for c in ast.walk(x.stmt))}
+        creates = [x.id for x in g.stmt_nodes() if x.kind == "stmt" and isinstance(x.stmt, (ast.Assign, ast.AnnAssign)) and any(isinstance(t_, ast.Name) and t_.id == v for t_ in (x.stmt.targets if isinstance(x.stmt, ast.Assign) else [x.stmt.target]))]
+        if not creates:
+            raise AnalysisError("Panel._title: the definition of the returned text was not found")
+        where = f"{m.relpath}:{nd.lineno}"
+        # every path from a definition of the text to this return passes an expand_tabs() call on it
+        leak = any(nd.id in g.reach([c_], avoid=tabs) for c_ in creates) if tabs else True
+        ctx.check(not leak, f.fq, f"return {v} (tabs)", where, "tabs are expanded before the title is measured", f"Panel._title returns `{v}` on a path without `{v}.expand_tabs()`: a tab in the title counts 0 cells in cell_len / align, the border is sized for that, and the tab becomes up to 8 cells when the title is rendered - the top line is wider than the panel")
+        leak_nl = any(nd.id in g.reach([c_], avoid=nls) for c_ in creates) if nls else True
+        ctx.check(not leak_nl, f.fq, f"return {v} (new lines)", where, "new lines are replaced before the title is measured", f"Panel._title returns `{v}` on a path that does not replace new lines: a title containing one splits the top border over two lines")
+    ctx.floor(n, 1, "returns of Panel._title")
+
+
 def r8_8(ctx):
     ctx.rule("R8.8", "alignment wrapper (path-sensitive symbolic emission over all paths of Align's generator): the child's lines, shaped to their common width w, are emitted unchanged between pads; with padding enabled every line is exactly options.max_width cells for left / center / right (left + w + (excess - left) etc.), without padding never more; when the child already fills the width nothing is added")
     from ..pathemit import PathEmit
@@ -252,9 +282,49 @@ def r8_8(ctx):
             ctx.check(ok, f.fq, f"[{conds}] line = {show(w)}", f"{f.module.relpath}:{ln}", f"padded line is exactly options.max_width on path [{conds}]",
                       f"Align emits a line of `{show(w)}` cells on path [{conds}]: not exactly the available width `{pe.W}` - the wrapper is not a rectangle of the full width")
     ctx.floor(n, 4, "emitted line kinds in Align")
-    src = norm(f.node)
-    ctx.shape("excess_space = options.max_width - width" in src and "lines = Segment.set_shape(lines, width, height)" in src, f.fq, "excess_space = options.max_width - width", f.where,
-              "excess is measured against the shaped child width", "Align's excess space is not options.max_width minus the width its lines are shaped to")
+    # the width the child's lines are shaped to is the width they HAVE (Segment.get_shape of the rendered lines - at most the
+    # options.max_width they were rendered with), and the excess is options.max_width minus that very value.  A measured width
+    # (Measurement.get(console, child) is taken against the console, not against options.max_width) pads the lines past the space
+    g88 = cfgmod.build(f.node)
+    rd88 = g88.reaching_defs()
+    m88 = f.module
+
+    def stmt_node_of(x):
+        st_ = x
+        while not isinstance(st_, ast.stmt):
+            st_ = m88.parent_of[st_]
+        return st_
+
+    def defs_of(name, at_stmt):
+        out_ = []
+        for nid in g88.nodes_of(at_stmt):
+            for d_ in rd88.get(nid, {}).get(name, ()):
+                nd_ = g88.nodes[d_] if isinstance(g88.nodes, dict) else [z for z in g88.nodes if z.id == d_][0]
+                if nd_.stmt is not None and nd_.stmt not in out_:
+                    out_.append(nd_.stmt)
+        return out_
+    shapes = [c for c in walk_local(f.node) if isinstance(c, ast.Call) and norm(c.func).endswith("Segment.set_shape") and len(c.args) >= 2]
+    exc = [x for x in walk_local(f.node) if isinstance(x, ast.Assign) and isinstance(x.value, ast.BinOp) and isinstance(x.value.op, ast.Sub) and norm(x.value.left) == "options.max_width" and isinstance(x.value.right, ast.Name)]
+    decided = False
+    if len(shapes) == 1 and len(exc) == 1 and isinstance(shapes[0].args[1], ast.Name) and shapes[0].args[1].id == exc[0].value.right.id:
+        wname = exc[0].value.right.id
+        d1, d2 = defs_of(wname, stmt_node_of(shapes[0])), defs_of(wname, exc[0])
+        if d1 and d1 == d2:
+            srcs = []
+            for d_ in d1:
+                v_ = d_.value if isinstance(d_, (ast.Assign, ast.AnnAssign)) else None
+                srcs.append(v_)
+            if all(v_ is not None and isinstance(v_, ast.Call) and norm(v_.func).endswith("Segment.get_shape") for v_ in srcs):
+                decided = True
+                ctx.ok(f"{m88.relpath}:{exc[0].lineno}", "the lines are shaped to the width they were rendered at, and the excess is options.max_width minus that width", f.fq)
+            elif any(v_ is not None and any(isinstance(y, ast.Call) and norm(y.func).endswith("Measurement.get") for y in ast.walk(v_)) for v_ in srcs) or any(
+                    v_ is not None and any(isinstance(y, ast.Name) and any(isinstance(z, ast.Call) and norm(z.func).endswith("Measurement.get") for dd in defs_of(y.id, d_) if isinstance(dd, ast.Assign) for z in ast.walk(dd.value)) for y in ast.walk(v_)) for v_, d_ in zip(srcs, d1)):
+                decided = True
+                ctx.violation(f.fq, short(stmt_node_of(shapes[0])), f"{m88.relpath}:{shapes[0].lineno}",
+                              f"Align shapes the child's lines to `{wname}`, a MEASURED width (Measurement.get against the console width, optionally capped by self.width), not to the width the lines were rendered at: when less than that is available (options.max_width < measure) every line is padded past the available width and `excess_space` goes negative - the block is no rectangle of the width it was given")
+    if not decided:
+        ctx.shape(False, f.fq, "excess_space = options.max_width - width", f.where,
+                  "excess is measured against the shaped child width", "Align's excess space is not options.max_width minus the width its lines are shaped to (width from Segment.get_shape of the rendered lines)")
 
 
 def _sub(a, b):
@@ -636,4 +706,4 @@ def r8_16(ctx):
     borrow(ctx, r1_3, "R1.3", "R8.16", " [a frame is a rectangle of at most the width it was given: the child of a fitting Panel is measured against the width minus the two border cells, otherwise the right border is pushed out and cropped]")
 
 
-RULES = [r8_3, r8_4, r8_5, r8_6, r8_7, r8_8, r8_9, r8_10, r8_11, r8_12, r8_13, r8_14, r8_15, r8_16]
+RULES = [r8_3, r8_4, r8_5, r8_6, r8_7, r8_8, r8_9, r8_10, r8_11, r8_12, r8_13, r8_14, r8_15, r8_16, r8_17]
